@@ -2,6 +2,7 @@ use crate::Ctx;
 pub mod c01;
 pub mod c02;
 pub mod c03;
+pub mod c06;
 pub mod c07;
 pub mod req;
 pub mod c14;
@@ -13,6 +14,8 @@ pub fn run(ctx: &mut Ctx, suite: &str) {
         "c01" => c01::run(ctx),
         "c02" => c02::run(ctx),
         "c03" => c03::run(ctx),
+        "c06" => c06::run(ctx),
+        "c08" => c06::run_c08(ctx),
         "c07" => c07::run(ctx),
         "c14" => c14::run(ctx),
         "c16" => c16::run(ctx),
@@ -28,6 +31,7 @@ pub fn run(ctx: &mut Ctx, suite: &str) {
 pub fn replay(ctx: &mut Ctx, tag: &str, args: &[&str]) {
     match tag {
         "c01" | "c02" | "c03" | "c15r" | "c14r" => req::case(ctx, tag, args[0], args[1], args[2], args[3], args[4], args[5]),
+        "c06" | "c08" => c06::case(ctx, tag, args),
         "c07" => c07::case(ctx, args[0], args[1], args[2], args[3], args[4]),
         "c14" => c14::case_ops(ctx, args[0], args[1]),
         "c14a" => c14::case_ascii(ctx, args[0], args[1]),
